@@ -290,6 +290,28 @@ def run(prop: str, tier: str) -> int:
                      "subclasses, the catch-all is a real Proxy subclass (real accepts())",
                      "double registration of the same endpoint is outside the property"]
     r = rng("router")
+    # a first small batch of histories is validated at once: a router that misroutes shows it immediately, and a defect that
+    # makes the full run slow (state leaking between Router instances) is reported instead of timing out
+    early = []
+    for i in range(60):
+        accept, stim = random_history(r, 40)
+        early.append(run_history(accept, TRACE_CLIENTS, TRACE_NAMES, stim))
+    erej, _, _ = tlc.validate_traces("TraceRouter", f"TraceRouter_{prop}.cfg", early, shards=4)
+    if erej:
+        for rj in erej[:10]:
+            ev = rj.trace["ev"][rj.matched] if rj.matched < len(rj.trace["ev"]) else None
+            v.violation(f"real Router step not allowed by Router.tla ({prop} clauses): event #{rj.matched + 1} "
+                        f"{({k: ev[k] for k in ev if k not in ('devs', 'clients', 'pol')} if ev else None)}",
+                        {"kind": "router-trace", "accept": rj.trace["accept"],
+                         "stimuli": [{k: e[k] for k in ("op", "s", "k", "n", "v", "d", "c") if k in e} for e in rj.trace["ev"][: rj.matched + 1]],
+                         "rejected_event": ev})
+        v.evaluations = sum(len(t["ev"]) for t in early)
+        for t in early:
+            v.nontrivial(str(t["ev"][:3]))
+        v.sample({"accept": early[0]["accept"], "ev": early[0]["ev"][:4]})
+        v.states = v.transitions = 1
+        v.notes["early_batch_only"] = True
+        return v.finish()
     model_check(v, tier)
     v.phase("model_check")
     traces, nstates = traces_from_model_states(tier, r)
